@@ -127,6 +127,13 @@ def probe_options(case):
                         pickle.loads(data)
                 except Exception as exc:  # pylint: disable=broad-except
                     bad("persistence_file", f"file is not in the format its extension names: {type(exc).__name__}")
+                # persistence keeps working after the first save: a later update reaches the file too
+                gw.logic("1;255;3;0;0;55")
+                gw.tasks.persistence.save_sensors()
+                with open(path, "rb") as fh:
+                    data2 = fh.read()
+                if data2 == data:
+                    bad("persistence", "an update after the first save is not written by the next save")
         # transport options
         if "MQTT" in cls_name:
             want_in = vals["in_prefix"] if "in_prefix" in subset else ""
